@@ -375,15 +375,23 @@ func runC09(p *core.Prog, r *core.Report) {
 				}
 				return nonNil
 			}
+			// the presence test made on the merged pointer, between the merge and the Set (`if text == nil { continue }`)
+			mergedPresent := func() bool {
+				if merged == nil {
+					return false
+				}
+				_, nn := sx.NilEdges(merged)
+				return len(nn) > 0 && sx.MustPass(fn, nil, in, sx.Cut{Edges: nn})
+			}
 			for _, cs := range cases {
 				switch cs.src {
 				case "cli":
 					nonNil := present("field:Flag.ArgValue")
-					r.Check(holds(cs, nonNil), "C09-R2", construct+": only when the cli text is present", p.Pos(in.Pos()), "behind ArgValue != nil", "Set from the command-line text is reachable when ArgValue is nil")
+					r.Check(holds(cs, nonNil) || mergedPresent(), "C09-R2", construct+": only when the cli text is present", p.Pos(in.Pos()), "behind ArgValue != nil", "Set from the command-line text is reachable when ArgValue is nil")
 				case "env":
 					nonNil := present("field:Flag.EnvValue")
 					argNil, _ := fieldNilEdges(fn, "field:Flag.ArgValue")
-					r.Check(holds(cs, nonNil), "C09-R2", construct+": only when the env text is present", p.Pos(in.Pos()), "behind EnvValue != nil", "Set from the environment text is reachable when EnvValue is nil")
+					r.Check(holds(cs, nonNil) || mergedPresent(), "C09-R2", construct+": only when the env text is present", p.Pos(in.Pos()), "behind EnvValue != nil", "Set from the environment text is reachable when EnvValue is nil")
 					r.Check(holds(cs, argNil), "C09-R2", construct+": only when the cli is silent", p.Pos(in.Pos()), "behind ArgValue == nil", "Set from the environment text is reachable although a command-line value exists: env would override cli")
 				default:
 					if merged != nil {
@@ -409,25 +417,51 @@ func runC09(p *core.Prog, r *core.Report) {
 		if len(cut.Instrs) == 0 {
 			continue
 		}
-		hdr := sx.InnermostLoop(fn, func() *ssa.BasicBlock {
-			for in := range cut.Instrs {
-				return in.Block()
+		// the loop over the flags: the one around a cli-driven Set (the config-path flag's own Set, before the JSON step,
+		// is not in a loop) — chosen independently of map order
+		var hdr *ssa.BasicBlock
+		for in := range cut.Instrs {
+			if h := sx.InnermostLoop(fn, in.Block()); h != nil && (hdr == nil || h.Index < hdr.Index) {
+				hdr = h
 			}
-			return nil
-		}())
+		}
 		ok := true
+		baseCut := cut
 		for e := range cliNonNil {
 			tb := e.To()
 			if len(tb.Instrs) == 0 {
 				continue
 			}
 			first := tb.Instrs[0]
-			if cut.Instrs[first] {
+			if baseCut.Instrs[first] {
 				continue
+			}
+			// a pointer merged in the target block from the command-line text over this very edge is non-nil on the paths
+			// that start here: its `== nil` edges are not taken (`text := ArgValue; if text == nil { text = EnvValue }; if
+			// text == nil { continue }`)
+			cut := sx.Cut{Instrs: baseCut.Instrs, Edges: map[sx.Edge]bool{}}
+			for _, in := range tb.Instrs {
+				ph, isPhi := in.(*ssa.Phi)
+				if !isPhi {
+					break
+				}
+				for k, pred := range tb.Preds {
+					if pred == e.From {
+						if org := sx.Origins(ph.Edges[k]); len(org) == 1 && org["field:Flag.ArgValue"] {
+							isNil, _ := sx.NilEdges(ph)
+							for ne := range isNil {
+								cut.Edges[ne] = true
+							}
+						}
+					}
+				}
 			}
 			// from the "cli text present" edge: the next iteration / a nil return must not be reachable without the Set
 			if hdr != nil {
 				for be := range sx.BackEdgesTo(hdr) {
+					if cut.Edges[be] {
+						continue // this way back to the loop head is the pointer's `== nil` edge: not taken on these paths
+					}
 					term := be.From.Instrs[len(be.From.Instrs)-1]
 					if first == term || sx.ReachInstr(fn, first, term, cut) {
 						ok = false
